@@ -162,50 +162,37 @@ func (s *scenario) okReply(c kafka.VerifCoordCall) kafka.VerifCoordReply {
 	return kafka.VerifCoordReply{}
 }
 
+// errPool: every error class is placed on every coordinator call — each kafka.Error code the consumer-group code can
+// meet (incl. UnknownTopicOrPartition 3, the one the watcher and the leader's partition lookup treat specially) and a
+// dropped connection; for the calls whose response has its own ErrorCode field also inside the body.
+var errPool = []int{3, 5, 6, 7, 14, 15, 16, 22, 25, 26, 27, 29, 30}
+
 // reply chooses a (mostly successful) answer.
 func (s *scenario) reply(c kafka.VerifCoordCall) kafka.VerifCoordReply {
 	if s.rng.Intn(100) >= s.errRate {
 		return s.okReply(c)
 	}
-	switch c.Method {
-	case "connect":
-		return kafka.VerifCoordReply{Err: netErr}
-	case "findCoordinator":
-		if s.rng.Intn(3) == 0 {
-			return kafka.VerifCoordReply{ErrorCode: 15} // in the response body
-		}
-		return kafka.VerifCoordReply{Err: s.pickErr(15, 16, 27)}
-	case "joinGroup":
-		if s.rng.Intn(4) == 0 {
-			return kafka.VerifCoordReply{ErrorCode: int16([]int{25, 27, 16}[s.rng.Intn(3)])}
-		}
-		return kafka.VerifCoordReply{Err: s.pickErr(25, 27, 15, 16, 26)}
-	case "syncGroup":
-		if s.rng.Intn(4) == 0 {
-			return kafka.VerifCoordReply{ErrorCode: int16([]int{22, 27, 25}[s.rng.Intn(3)])}
-		}
-		return kafka.VerifCoordReply{Err: s.pickErr(27, 22, 25, 16)}
-	case "offsetFetch":
-		return kafka.VerifCoordReply{Err: s.pickErr(27, 16, 14)}
-	case "heartbeat":
-		return kafka.VerifCoordReply{Err: s.pickErr(27, 22, 25, 16)}
-	case "leaveGroup":
-		return kafka.VerifCoordReply{Err: s.pickErr(25, 16)}
-	case "readPartitions":
-		switch s.rng.Intn(4) {
-		case 0: // partition count changes
-			for _, t := range c.Topics {
-				s.parts[t]++
-			}
-			return s.okReply(c)
-		case 1:
-			return kafka.VerifCoordReply{Err: kerr(3)}
-		case 2:
-			return kafka.VerifCoordReply{Err: kerr(5)}
-		}
+	if c.Method == "connect" {
 		return kafka.VerifCoordReply{Err: netErr}
 	}
-	return s.okReply(c)
+	if c.Method == "readPartitions" && s.rng.Intn(3) == 0 { // partition count changes
+		for _, t := range c.Topics {
+			s.parts[t]++
+		}
+		return s.okReply(c)
+	}
+	i := s.rng.Intn(len(errPool) + 2)
+	if i >= len(errPool) {
+		return kafka.VerifCoordReply{Err: netErr}
+	}
+	code := errPool[i]
+	switch c.Method {
+	case "findCoordinator", "joinGroup", "syncGroup":
+		if s.rng.Intn(4) == 0 {
+			return kafka.VerifCoordReply{ErrorCode: int16(code)} // in the response body
+		}
+	}
+	return kafka.VerifCoordReply{Err: kerr(code)}
 }
 
 // ---------------------------------------------------------------- application-side actions
@@ -681,7 +668,7 @@ func scenarioD9(rng *rand.Rand) {
 
 // scenarioCauses: each end cause in turn on a fresh generation, with two application functions observing the ctx.
 func scenarioCauses(rng *rand.Rand, cause int) {
-	watch := cause == 2 || cause == 3
+	watch := cause == 2 || cause == 3 || cause == 6
 	s := newScenario(rng, []string{"t", "u"}, watch, 0)
 	s.start(2*time.Millisecond, 2*time.Millisecond, 5*time.Millisecond)
 	s.callNext()
@@ -709,6 +696,15 @@ func scenarioCauses(rng *rand.Rand, cause int) {
 			close(s.fns[0].release)
 		case 5: // Close
 			s.callClose()
+		case 6: // a watched topic is deleted: the poll answers UnknownTopicOrPartition (count N -> 0)
+			s.ok("readPartitions")
+			s.answer("readPartitions", withErr(kerr(3)))
+			// a watcher that ignored it would poll again: keep answering the same for a while
+			for i := 0; i < 5; i++ {
+				if p := s.mock.Await(gm.Method("readPartitions"), 10*time.Millisecond); p != nil {
+					s.mock.Answer(p, kafka.VerifCoordReply{Err: kerr(3)})
+				}
+			}
 		}
 		for _, f := range s.fns {
 			if f.released() {
@@ -771,6 +767,33 @@ func scenarioHeartbeatRate(rng *rand.Rand) {
 	fmt.Fprintf(out, "hbrate %d %d\t%d\n", iv.Milliseconds(), elapsed.Milliseconds(), n)
 }
 
+// scenarioLateNext: the generation lives from its creation, not from the moment Next picks it up: while a joined
+// generation waits for the caller's Next, heartbeats are sent at the configured interval (wall clock, tolerance in
+// the oracle).
+func scenarioLateNext(rng *rand.Rand) {
+	const iv = 10 * time.Millisecond
+	s := newScenario(rng, []string{"t"}, false, 0)
+	s.start(iv, time.Second, 5*time.Millisecond)
+	n, elapsed := 0, time.Duration(0)
+	if s.joinAsFollower() && s.log.WaitCount(gm.Kind("G.New"), 1, 3*time.Second) {
+		t0 := time.Now()
+		for time.Since(t0) < 300*time.Millisecond {
+			if p := s.mock.Await(gm.Method("heartbeat"), 50*time.Millisecond); p != nil {
+				s.mock.Answer(p, kafka.VerifCoordReply{})
+				n++
+			}
+		}
+		elapsed = time.Since(t0)
+		if s.nextGen() != nil { // the late Next still gets a live generation
+			s.userStart(0, false)
+			s.ok("heartbeat")
+		}
+	}
+	s.finish()
+	s.emit("latenext")
+	fmt.Fprintf(out, "hbwait %d %d\t%d\n", iv.Milliseconds(), elapsed.Milliseconds(), n)
+}
+
 func main() {
 	defer out.Flush()
 	rng := gen.New()
@@ -781,11 +804,12 @@ func main() {
 	if only == "" || only == "scripted" {
 		scenarioD8(rng)
 		scenarioD9(rng)
-		for c := 0; c < 6; c++ {
+		for c := 0; c < 7; c++ {
 			scenarioCauses(rng, c)
 		}
 		scenarioBackoff(rng)
 		scenarioHeartbeatRate(rng)
+		scenarioLateNext(rng)
 	}
 	if only == "d8" {
 		scenarioD8(rng)
